@@ -22,13 +22,15 @@ def intersect (a b : Nat × Nat) : Option (Nat × Nat) :=
 
 /-- `tokens_with_ranges`: `(token, range relative to the token)` for every token of the sub-tree
     whose range intersects the view -/
+def cutOf (r : Red) (rg : Nat × Nat) (q : Path) : Option (Path × (Nat × Nat)) :=
+  match r.range q with
+  | some tr => (intersect rg tr).map (fun ir => (q, (ir.1 - tr.1, ir.2 - tr.1)))
+  | none => none
+
 def tokensWithRanges (r : Red) (v : View) : List (Path × (Nat × Nat)) × Red :=
   let (ps, r') := r.descendantsWithTokens v.node
   let toks := ps.filter r'.isToken
-  (toks.filterMap (fun q =>
-      match r'.range q with
-      | some tr => (intersect v.range tr).map (fun ir => (q, (ir.1 - tr.1, ir.2 - tr.1)))
-      | none => none), r')
+  (toks.filterMap (cutOf r' v.range), r')
 
 /-- one chunk: `&token.resolve_text(resolver)[range]`; `none` = slice panic / unresolvable -/
 def chunkOf (cfg : Cfg) (I : Interner) (r : Red) (x : Path × (Nat × Nat)) : Option Text :=
